@@ -177,6 +177,9 @@ func runX01(r *core.Run) {
 		return
 	}
 	for i := range obs {
+		if obs[i].Skipped {
+			continue // not executed: the run had already met many calls that do not return
+		}
 		o, op, c := &obs[i], &ops[i], &cases[opCase[i]]
 		desc := map[string]interface{}{"entry": c.Entry, "kind": c.Kind, "specified_history": c.H, "specified_error": c.Err, "specified_type": c.RType}
 		if o.Bad() {
